@@ -53,7 +53,8 @@ structure Cfg where
   endedFirst : Bool      -- `t->ended()` comes before `finished = true` in `Thread::begin`
   holdsState : Bool      -- `begin` holds its own reference on the shared `State_` (and writes the flag through it)
   selfOwned : Bool       -- `ended()` deletes the object (SocketServer's connection threads); nobody else owns it
-  wpc : Nat              -- 0 `run()` has not returned · 1 returned · 2 first tail step done · 3 thread function over
+  wpc : Nat              -- 0 `run()` has not returned · 1 returned · 2 first tail step done · 3 both done, the thread's own
+                         --   reference not yet released · 4 thread function over
   objAlive : Bool
   stateRefs : Nat        -- references on the shared `State_`
   finished : Bool
@@ -69,6 +70,11 @@ def init (endedFirst holdsState selfOwned : Bool) : Cfg :=
   { endedFirst, holdsState, selfOwned, wpc := 0, objAlive := true, stateRefs := if holdsState then 2 else 1,
     finished := false, owner := 0, bad := false }
 
+/-! Scope of `End`: it starts when the worker already holds its reference (`begin` takes it as its first step, before
+`run()`), and the owner acts only on what `finished()` tells it.  An owner that deletes or reassigns the thread object
+BEFORE the worker has taken that reference (`t.start(); t = Thread();`) is outside the model — and outside the library's
+contract: `run()` itself uses the object. -/
+
 /-- the virtual call `t->ended()` -/
 def callEnded (c : Cfg) : Cfg :=
   if !c.objAlive then { c with bad := true }
@@ -82,7 +88,7 @@ def setFlag (c : Cfg) : Cfg :=
   else { c with finished := true }
 
 def enabled (c : Cfg) : Act → Bool
-  | Act.worker => c.wpc < 3 && !c.bad
+  | Act.worker => c.wpc < 4 && !c.bad
   | Act.poll => c.owner == 0 && !c.selfOwned && !c.bad
   | Act.delete => c.owner == 1 && !c.bad
 
@@ -90,9 +96,12 @@ def step (c : Cfg) : Act → Cfg
   | Act.worker =>
     if c.wpc = 0 then (if c.objAlive then { c with wpc := 1 } else { c with bad := true })   -- `t->run()` uses the object
     else if c.wpc = 1 then { (if c.endedFirst then callEnded c else setFlag c) with wpc := 2 }
+    else if c.wpc = 2 then { (if c.endedFirst then setFlag c else callEnded c) with wpc := 3 }
     else
-      let c' := if c.endedFirst then setFlag c else callEnded c
-      { c' with wpc := 3, stateRefs := if c.holdsState then c'.stateRefs - 1 else c'.stateRefs }   -- `releaseState(st)`
+      -- `releaseState(st)`: a separate step — the owner's poll and delete can fall between the flag store and this release
+      { c with wpc := 4, stateRefs := if c.holdsState then
+                 (if c.stateRefs = 0 then 0 else c.stateRefs - 1) else c.stateRefs,
+               bad := c.bad || (c.holdsState && c.stateRefs == 0) }
   | Act.poll => if c.finished then { c with owner := 1 } else c
   | Act.delete => { c with objAlive := false, stateRefs := c.stateRefs - 1, owner := 2 }     -- `delete w`
 
